@@ -431,6 +431,40 @@ theorem C13_full_reduction_axis (E : Env α δ)
     simp only [hi, dif_pos]
     exact hf i hi
 
+/-- how `axis` is detected (`sig.bind(*args, **kwargs)`, then `"axis" in bound.arguments`): it counts as given
+    exactly when enough positional arguments reach its position in the signature, or when it is passed by
+    keyword — whatever its value, also `None`; too many positionals, an unknown keyword or a keyword that is
+    already bound positionally is a `TypeError` before anything is reduced.  With `C13_full_reduction` /
+    `C13_full_reduction_axis`: `snp.sum(x, 0)`, `snp.sum(x, axis=0)`, `snp.linalg.norm(x, None, 0)` map over the
+    blocks, `snp.sum(x)`, `snp.linalg.norm(x, 1)`, `snp.sum(x, keepdims=True)` reduce the concatenation. -/
+theorem C13_axis_binding (E : Env α δ) (posParams kwOnly : List String)
+    (f : List (PyVal α) → List (String × PyVal α) → Res α) (cat : List α → Res α)
+    (args : List (PyVal α)) (kwargs : List (String × PyVal α)) :
+    (posParams.length < args.length → reductionCall E posParams kwOnly f cat args kwargs = .error .type) ∧
+    (∀ bound, bindCall posParams kwOnly args kwargs = .ok bound →
+      hasKey "axis" bound = (decide (posParams.idxOf "axis" < args.length) || hasKey "axis" kwargs) ∧
+      reductionCall E posParams kwOnly f cat args kwargs
+        = addFullReduction (fun b => mapFuncOverBlocks E f [] b) cat bound) := by
+  constructor
+  · intro h
+    simp [reductionCall, bindCall, h]
+  · intro bound h
+    refine ⟨?_, by simp [reductionCall, h]⟩
+    unfold bindCall at h
+    by_cases hl : posParams.length < args.length
+    · simp [hl] at h
+    · simp only [hl, if_false] at h
+      split at h
+      · cases h
+      · simp only [Except.ok.injEq] at h
+        subst h
+        rw [hasKey_append, hasKey_zip]
+        congr 1
+        by_cases hi : posParams.idxOf "axis" < args.length
+        · have : posParams.idxOf "axis" < posParams.length := by omega
+          simp [hi, this]
+        · simp [hi]
+
 /-- `jnp.concatenate(v.ravel())`: the lifted `ravel` of every block, then one concatenation; an
     empty block array is rejected (`IndexError` of the lifted method) before anything is concatenated -/
 theorem C13_ravel_cat (E : Env α δ) (rv : α → Res α) (concat : List α → Res α) (h : α → α)
@@ -950,6 +984,11 @@ example : getSlice exEnv [[1], [2], [3], [4]] none none (some (-1)) = .ok [[4], 
 example : getSlice exEnv [[1], [2], [3], [4]] (some 1) none none = .ok [[2], [3], [4]] := by decide
 example : getSlice exEnv [[1], [2], [3], [4]] (some (-3)) (some 9) (some 2) = .ok [[2], [4]] := by decide
 example : sliceBounds 4 (some (-3)) (some 9) (some 2) = some (1, 4, 2) := by decide
+-- signature of `jnp.linalg.norm`: (x, ord, axis, keepdims); `norm(x, 1)` binds no axis, `norm(x, None, 0)` does
+example : bindCall ["x", "ord", "axis", "keepdims"] [] [10, 1] ([] : List (String × Nat)) = .ok [("x", 10), ("ord", 1)] := by decide
+example : hasKey "axis" [("x", 10), ("ord", 1)] = false := by decide
+example : (["x", "ord", "axis", "keepdims"] : List String).idxOf "axis" = 2 := by decide
+example : bindCall ["x", "ord", "axis", "keepdims"] [] [10, 0, 0] [("axis", 1)] = (.error .type : Res (List (String × Nat))) := by decide
 -- slice assignment: x[1:2] = three blocks (4 blocks afterwards); x[::2] = two blocks; wrong count for an extended slice
 example : setSlice exEnv [[1], [2]] (some 1) (some 2) none [[7], [8], [9]] = .ok [[1], [7], [8], [9]] := by decide
 example : setSlice exEnv [[1], [2], [3]] none none (some 2) [[7], [8]] = .ok [[7], [2], [8]] := by decide
